@@ -12,6 +12,15 @@ COMMON_NOTE = ('Trusted: Coq 8.16.1 kernel and vm_compute (no native_compute); t
                'not verified. ')
 
 CHECKS = {
+ 'C19': dict(
+   text='Proof (Coq): update, declaration by declaration (Forall2): name, type and all other attributes unchanged; a named field gets '
+        'the converted new value in the attribute of its value type and no other value attribute changes; unnamed fields untouched; order '
+        'and number preserved; listing the output returns new values for named fields and old ones for the rest; a refused (boolean) value '
+        'aborts before anything is produced. The attribute-per-type function is proved equal to the regenerated VALUE_TYPES table. The '
+        '"everything else as load+save" clause is tied to C04/C05 and checked by an oracle against a plain load+save of the same source.',
+   note='Axioms: none. load()/save() are not part of this model (C04/C05).',
+   tech='Coq proof by list induction + regenerated VALUE_TYPES table + correspondence',
+   ref='5/C19'),
  'C20': dict(
    text='Proof (Coq): for every list of non-empty specifications styleFromList yields exactly one level per specification, levels '
         '1..n in order, indentation factor equal to the level; a specification with a format character gives a numbering level with '
